@@ -9,11 +9,14 @@
      A >> B  (= series A B)    series composition: state pair, every EForward of A is fed to B's put inside the same action
      actsA / actsB             what A / B see of a composite execution;  pipeline E [E1; ..; En] = E >> (E1 >> (.. >> En))
      conserves / flow_fifo / drained / laws   the three C08 statements in interface form
-     wire_elem / port_elem / tb_elem / mq_elem (sp_elem, rr_elem, wrr_elem)   the adapters of the existing models *)
+     wire_elem / port_elem / tb_elem / mq_elem (sp_elem, rr_elem, wrr_elem)   the adapters of the existing models
+     par sel A B               two elements side by side (a packet goes to A iff sel p); fanin sel A B C = par sel A B >> C
+     hands k tr                the packets shown as handed from stage k to stage k+1, in order;  tagged E: E numbers them consistently *)
 From Coq Require Import ZArith QArith List Bool Permutation Arith.
 From ONL Require Import Elem.Packet Elem.StoreQ Elem.Network
   Elem.Wire Elem.Port Elem.Bucket Elem.BucketProofs Elem.SchedBase Elem.SchedBaseProofs Elem.SP
-  Elem.Iface Elem.Compose Elem.AdaptWire Elem.AdaptPort Elem.AdaptBucket Elem.AdaptSched Elem.ComposeExample.
+  Elem.Iface Elem.Compose Elem.ComposePar Elem.ComposeHands Elem.AdaptWire Elem.AdaptPort Elem.AdaptBucket Elem.AdaptSched
+  Elem.AdaptTagged Elem.ComposeExample.
 Import ListNotations.
 
 (* ================= the composite is made of its parts ================= *)
@@ -88,6 +91,60 @@ Theorem C08_pipe_pipeline_timed : forall (es : list elem) (E : elem), timed E ->
 Proof. exact pipeline_timed. Qed.
 Print Assumptions C08_pipe_pipeline_timed.
 
+(* ================= the hand-overs shown are the hand-overs made ================= *)
+(* what any execution of A >> B shows at the boundary between A and B (this is what the correspondence compares with the taps
+   between the stages of a real pipeline) is, in order, exactly what A forwarded, i.e. what was put into B *)
+Theorem C08_pipe_hands : forall (A B : elem), tagged A -> forall acts sA sB s' tr sA' trA,
+  run (A >> B) (sA, sB) acts = Some (s', tr) -> run A sA (actsA A B acts) = Some (sA', trA) ->
+  hands (pred (width A)) tr = fwds trA.
+Proof. exact series_hands. Qed.
+Print Assumptions C08_pipe_hands.
+
+Theorem C08_pipe_pipeline_tagged : forall (es : list elem) (E : elem), tagged E -> Forall tagged es -> tagged (pipeline E es).
+Proof. exact pipeline_tagged. Qed.
+Print Assumptions C08_pipe_pipeline_tagged.
+
+Theorem C08_pipe_adapters_tagged :
+  (forall loss t0, tagged (wire_elem loss t0)) /\ (forall c t0, tagged (port_elem c t0)) /\
+  (forall c t0, tagged (tb_elem c t0)) /\ (forall c, tagged (mq_elem c)).
+Proof. exact (conj wire_elem_tagged (conj port_elem_tagged (conj tb_elem_tagged mq_elem_tagged))). Qed.
+Print Assumptions C08_pipe_adapters_tagged.
+
+(* ================= fan-in ================= *)
+(* two upstream elements side by side: each branch of ANY execution is an admissible execution of that element alone; what is
+   put in, forwarded and dropped are interleavings of the branches' *)
+Theorem C08_pipe_par_projection : forall (sel : pkt -> bool) (A B : elem) acts sA sB sA' sB' tr,
+  run (par sel A B) (sA, sB) acts = Some ((sA', sB'), tr) ->
+  exists trA trB,
+    run A sA (pactsA sel A B acts) = Some (sA', trA) /\ run B sB (pactsB sel A B acts) = Some (sB', trB) /\
+    interleave (puts trA) (puts trB) (puts tr) /\ interleave (fwds trA) (fwds trB) (fwds tr) /\
+    interleave (drops trA) (drops trB) (drops tr) /\
+    Forall (fun p => sel p = true) (puts trA) /\ Forall (fun p => sel p = false) (puts trB).
+Proof. exact par_projection. Qed.
+Print Assumptions C08_pipe_par_projection.
+
+(* (A | B) >> C: injected into A and into B = forwarded by C ++ dropped by A, B, C ++ held by A, B, C *)
+Theorem C08_pipe_fanin_conserves : forall (sel : pkt -> bool) (A B C : elem), conserves A -> conserves B -> conserves C ->
+  forall acts s tr, run (fanin sel A B C) (init (fanin sel A B C)) acts = Some (s, tr) ->
+  Permutation (puts tr) (fwds tr ++ drops tr ++ (held A (fst (fst s)) ++ held B (snd (fst s))) ++ held C (snd s)).
+Proof. exact fanin_conserves. Qed.
+Print Assumptions C08_pipe_fanin_conserves.
+
+(* a flow injected into one branch only leaves the fan-in in the order in which it entered *)
+Theorem C08_pipe_fanin_flow_fifo : forall (sel : pkt -> bool) (A B C : elem) (f : Z),
+  conserves A -> conserves B ->
+  ((forall p, on_flow f p = true -> sel p = true) /\ flow_fifo A f \/ (forall p, on_flow f p = true -> sel p = false) /\ flow_fifo B f) ->
+  flow_fifo C f ->
+  forall acts s tr, run (fanin sel A B C) (init (fanin sel A B C)) acts = Some (s, tr) ->
+  sublist (filter (on_flow f) (fwds tr)) (filter (on_flow f) (puts tr)).
+Proof. exact fanin_flow_fifo. Qed.
+Print Assumptions C08_pipe_fanin_flow_fifo.
+
+Theorem C08_pipe_fanin_drained : forall (sel : pkt -> bool) (A B C : elem),
+  conserves A -> conserves B -> drained A -> drained B -> drained C -> drained (fanin sel A B C).
+Proof. exact fanin_drained. Qed.
+Print Assumptions C08_pipe_fanin_drained.
+
 (* ================= the abstract composition theorem is instantiated ================= *)
 (* For every execution of every series composition of two conserving elements, the wiring "node 0 = A, node 1 = B, injection
    into A, A sends what it forwards to B, B delivers to the sink" satisfies the three hypotheses of C08_network_conserves
@@ -160,6 +217,12 @@ Theorem C08_pipe_sp_laws : forall r cm fl tbl, 0 < r -> (forall k p, In (k, p) t
 Proof. exact sp_elem_laws. Qed.
 Print Assumptions C08_pipe_sp_laws.
 
+Theorem C08_pipe_rr_wrr_laws :
+  (forall r fl, 0 < r -> laws (rr_elem r fl)) /\
+  (forall r ws, 0 < r -> (forall f w, In (f, w) ws -> (0 < w)%Z) -> laws (wrr_elem r ws)).
+Proof. exact (conj rr_elem_laws wrr_elem_laws). Qed.
+Print Assumptions C08_pipe_rr_wrr_laws.
+
 (* ================= a concrete family: Port >> Wire >> TokenBucket, every configuration ================= *)
 (* every admissible execution of the three-stage pipeline: injected = delivered ++ dropped (port refusals, wire losses) ++
    held (by the port, the wire, the bucket), per-flow order kept end to end, and at quiescence nothing is held *)
@@ -201,3 +264,11 @@ Example C08_pipe_example_sp :
     puts tr = [yp 0 0; yp 1 1; yp 2 0] /\ fwds tr = [yp 1 1; yp 0 0; yp 2 0] /\ drops tr = [] /\ held ex2_pipe s = [].
 Proof. exact ex2_pipe_run. Qed.
 Print Assumptions C08_pipe_example_sp.
+
+(* fan-in: two rate-0 ports (flow 0 / the other flows) into one SP; the scheduler serves flow 1 first *)
+Example C08_pipe_example_fanin :
+  exists s tr, run ex3_net (init ex3_net) ex3_acts = Some (s, tr) /\
+    puts tr = [yp 0 0; yp 1 1] /\ fwds tr = [yp 1 1; yp 0 0] /\ drops tr = [] /\
+    hands 1 tr = [yp 0 0; yp 1 1] /\ held ex3_net s = [] /\ urgent ex3_net s = false /\ deadline ex3_net s = None.
+Proof. exact ex3_fanin_run. Qed.
+Print Assumptions C08_pipe_example_fanin.
